@@ -91,10 +91,14 @@ namespace chaiscript {
     /// Evaluates the given file and looks in the 'use' paths
     Boxed_Value internal_eval_file(const std::string &t_filename) {
       for (const auto &path : m_use_paths) {
+        const auto appendedpath = path + t_filename;
         try {
-          const auto appendedpath = path + t_filename;
           return do_eval(load_file(appendedpath), appendedpath, true);
-        } catch (const exception::file_not_found_error &) {
+        } catch (const exception::file_not_found_error &e) {
+          if (e.filename != appendedpath) {
+            // a nested file include failed
+            throw;
+          }
           // failed to load, try the next path
         } catch (const exception::eval_error &t_ee) {
           throw Boxed_Value(t_ee);
